@@ -22,6 +22,7 @@ stage 'phases'     every permutation of 2 and 3 precipitate phases (2 + 6 orders
                    _conditioning_horizon and _temperature_rule_flipped).
 """
 import itertools
+import math
 
 PROPERTY = 'C11'
 LEVEL = 'exploration'
@@ -317,6 +318,7 @@ def run(ctx):
                 'permutation of the phase list run and compared with the identity order step by step; non-trivial = a step-size '
                 'rule chose at least one step and at least two phases precipitated')
     ctx.assumptions = ['analytic thermodynamic backends (mc/synth_thermo.py) stand in for pycalphad in the phase-permutation product',
+                       'stage interstitial uses a harness-owned database (mc/interstitial_tdb.py): none of the shipped ones has an interstitial element',
                        'per-phase parameters travel with the phase name; parent-phase relation set by name',
                        'every query starts from clearCache() and uses removeCache=True: dependence on evaluation history is C09, not C11',
                        'only the solutes are permuted (the reference element stays first), as the property states',
@@ -334,6 +336,7 @@ def run(ctx):
                   'phase_cases': len(pc), 'horizon_steps': pc[0]['horizon'], 'constraints': CONSTRAINTS + ['all'],
                   'tol_time': TOL_TIME, 'tol_history': TOL_HIST, 'tol_query': TOL_QUERY, 'twin_tol': TWIN_TOL}
     ctx.product_run('elements', 'checks.c11:run_element_point', ec, chunksize=1)
+    ctx.product_run('interstitial', 'checks.c11:run_interstitial_point', interstitial_cases(quick))
     ctx.product_run('diffusion', 'checks.c11:run_diffusion', dc, chunksize=1)
     ctx.product_run('phases', 'checks.c11:run_phase_perm', pc, chunksize=1)
 
@@ -555,6 +558,95 @@ def element_cases(quick):
             for xa in _lin(*d['axes'][names[0]], n):
                 for xb in _lin(*d['axes'][names[1]], n):
                     out.append({'system': sysname, 'T': round(T, 6), 'x': {names[0]: round(xa, 10), names[1]: round(xb, 10)}})
+    return out
+
+
+# ------------------------------------------------------------------------------------------------------------------
+# stage 'interstitial': a database with an interstitial sublattice (mc/interstitial_tdb.py), solute order permuted.
+# The u-fraction branch of the mobility code (interstitials do not count in the denominator) is unreachable with the shipped
+# substitutional databases; the position of the interstitial in the user's list must not matter.
+
+INTERSTITIAL_SYSTEMS = {'fecrc': ['FE', 'CR', 'C'], 'fecrn': ['FE', 'CR', 'N'], 'fecrcn': ['FE', 'CR', 'C', 'N']}
+_ITH = {}
+
+
+def _itherm(order):
+    from kawin.thermo import GeneralThermodynamics
+    from mc.interstitial_tdb import TDB
+    key = tuple(order)
+    if key not in _ITH:
+        _ITH[key] = GeneralThermodynamics(TDB, list(order), ['FCC_A1'])
+    return _ITH[key]
+
+
+def run_interstitial_point(case):
+    from kawin.diffusion.DiffusionParameters import computeMobility
+    from kawin.diffusion.HomogenizationParameters import HomogenizationParameters, computeHomogenizationFunction
+    from mc.interstitial_tdb import MQ, INTERSTITIALS
+    sysname, T, xd = case['system'], case['T'], case['x']
+    els = INTERSTITIAL_SYSTEMS[sysname]
+    orders = [[els[0]] + list(p) for p in itertools.permutations(els[1:])]
+    ref = orders[0]
+    viol, seen = [], set()
+    nq = 0
+    answers = {}
+    for order in orders:
+        th = _itherm(order)
+        th.clearCache()
+        x = [xd[e] for e in order[1:]]
+        ans = {}
+        md = computeMobility(th, x, T)
+        ans['mobility'] = ('full-cols', np.asarray(md.mobility[0], dtype=float))
+        ans['chemical_potentials'] = ('full', np.asarray(md.chemical_potentials[0], dtype=float))
+        for rule in ('wiener upper', 'wiener lower', 'hashin upper', 'hashin lower', 'lab'):
+            hp = HomogenizationParameters(rule)
+            mobh, mu = computeHomogenizationFunction(th, x, T, hp)
+            ans['homogenization/' + rule] = ('full-cols', np.atleast_2d(np.asarray(mobh, dtype=float)))
+        th.clearCache()
+        ans['D'] = ('solutes2', np.atleast_2d(np.asarray(th.getInterdiffusivity(x, T), dtype=float)))
+        ans['Dtracer'] = ('full', np.asarray(th.getTracerDiffusivity(x, T), dtype=float))
+        answers[tuple(order)] = ans
+        # independent value of the quantity the homogenization model transports: M_k u_k, u_k = x_k / (sum of substitutional x)
+        xs = dict(xd)
+        xs[els[0]] = 1.0 - sum(xd.values())
+        usum = sum(v for e, v in xs.items() if e not in INTERSTITIALS)
+        RG = 8.3145          # the constant pycalphad uses for the symbol R of the database
+        hand = np.array([math.exp(MQ[e][0] / (RG * T)) * MQ[e][1] / (RG * T) * xs[e] / usum for e in order])
+        got = np.asarray(md.mobility[0], dtype=float)[0]
+        nq += 1
+        if got.shape != hand.shape or not np.all(np.abs(got - hand) <= 1e-6 * hand):
+            sig = 'interstitial/%s/mobility-vs-M-times-u-fraction/interstitial-at=%s' % (
+                sysname, ','.join(str(order.index(e)) for e in order if e in INTERSTITIALS))
+            if sig not in seen:
+                seen.add(sig)
+                viol.append({'sig': sig, 'msg': '%s T=%g x=%s order %s: computeMobility gives %s, M_k x_k / (sum of substitutional x) = %s'
+                             % (sysname, T, xd, order, got.tolist(), hand.tolist())})
+    A = answers[tuple(ref)]
+    for order in orders[1:]:
+        B = answers[tuple(order)]
+        sol = [ref[1:].index(e) for e in order[1:]]
+        full = [ref.index(e) for e in order]
+        tag = '%s T=%g x=%s order %s vs %s' % (sysname, T, xd, ref, order)
+        for key in sorted(A):
+            kind, a = A[key]
+            _, b = B[key]
+            a = np.asarray(a, dtype=float)
+            a = a[sol][:, sol] if kind == 'solutes2' else (a[full] if kind == 'full' else a[..., full])
+            nq += 1
+            _cmp(viol, seen, 'interstitial/%s' % sysname, key, a, b, TOL_QUERY, tag, 'rows' if kind == 'full-cols' else 'max')
+    return {'viol': viol, 'states': len(orders), 'transitions': nq, 'evaluations': nq, 'outcome': sysname, 'nontrivial': True}
+
+
+def interstitial_cases(quick):
+    out = []
+    for sysname, els in INTERSTITIAL_SYSTEMS.items():
+        for T in ([1173.15, 1373.15] if quick else [1073.15, 1173.15, 1273.15, 1373.15]):
+            for xcr in ([0.05, 0.2] if quick else [0.02, 0.05, 0.12, 0.2, 0.3]):
+                for xi in ([0.004, 0.03] if quick else [0.001, 0.004, 0.012, 0.03]):
+                    xd = {'CR': xcr}
+                    for e in els[2:]:
+                        xd[e] = xi if e == 'C' else 0.6 * xi
+                    out.append({'system': sysname, 'T': T, 'x': xd})
     return out
 
 
